@@ -25,6 +25,9 @@ type MConn struct {
 	// PeerClosed: the peer closed the connection before it was bound; the server
 	// only notices when it starts copying, i.e. right after a successful bind.
 	PeerClosed bool
+	// Doomed: a ConnectionBind for it was in progress when the client reset the data connection. The server may
+	// have given the connection up at once or may keep it pending; it does not outlive its bind deadline.
+	Doomed bool
 }
 
 const bindTimeout = 30 * time.Second
@@ -135,7 +138,13 @@ func (x *Exec) applyTCP(ev Event, now time.Time) (*Viol, bool) { //nolint:gocycl
 
 			return nil, true
 		}
-		for _, mc := range t.Conns[ev.C] {
+		for i, mc := range t.Conns[ev.C] {
+			if mc.Peer == p.String() && mc.Doomed && res.Resp != nil && res.Resp.Class == wire.Success {
+				// the doomed connection had been given up already: this Connect is an ordinary one
+				t.Conns[ev.C] = append(append([]*MConn{}, t.Conns[ev.C][:i]...), t.Conns[ev.C][i+1:]...)
+
+				break
+			}
 			if mc.Peer == p.String() {
 				if res.Resp == nil || res.Resp.Class != wire.Error || res.Resp.ErrorCode() != 446 {
 					return x.viol("tcp", "duplicate-connect-not-446", ev, respStr(res)), true
@@ -281,6 +290,18 @@ func (x *Exec) applyTCP(ev Event, now time.Time) (*Viol, bool) { //nolint:gocycl
 		b := wire.New(wire.ConnectionBind, wire.Request, tx).U32(wire.AttrConnectionID, id)
 		b.Str(wire.AttrUsername, user).Str(wire.AttrRealm, Realm).Str(wire.AttrNonce, c.Nonce).Integrity(wire.LongTermKey(user, Realm, Users[user]))
 		_, _ = dc.Write(b.Bytes())
+		if ev.Rule == "reset" {
+			// the client resets the data connection right behind the request: the answer cannot be written
+			_ = dc.Close()
+			synctest.Wait()
+			x.Trace = append(x.Trace, ev.Class()+"->(data connection reset)")
+			oa := m.Allocs[owner]
+			if mc != nil && !mc.Bound && oa != nil && oa.User == user {
+				mc.Doomed = true
+			}
+
+			return nil, true
+		}
 		synctest.Wait()
 		raw, _ := dc.TakeAll()
 		var resp *wire.Msg
@@ -315,6 +336,15 @@ func (x *Exec) applyTCP(ev Event, now time.Time) (*Viol, bool) { //nolint:gocycl
 			synctest.Wait()
 
 			return nil, true
+		}
+		if mc.Doomed {
+			if resp == nil || resp.Class != wire.Success {
+				_ = dc.Close()
+				synctest.Wait()
+
+				return nil, true // given up already
+			}
+			mc.Doomed = false // it had been kept pending: an ordinary bind
 		}
 		if mc.PeerClosed {
 			// either answer is fine; the connection is gone afterwards
@@ -412,7 +442,7 @@ func (x *Exec) CheckTCP(ev Event) *Viol {
 	for _, list := range x.tcp.Conns {
 		for _, c := range list {
 			live[c.PeerEnd] = true
-			if c.PeerEnd.SawEOF() && !c.PeerEnd.IsClosed() && !c.PeerClosed {
+			if c.PeerEnd.SawEOF() && !c.PeerEnd.IsClosed() && !c.PeerClosed && !c.Doomed {
 				return x.viol("tcp", "live-peer-connection-closed-by-server", ev, fmt.Sprintf("id=%d peer=%s bound=%v trace=%v", c.ID, c.Peer, c.Bound, x.Trace))
 			}
 		}
